@@ -22,7 +22,7 @@ Variants(m) == {InOrder(m)} \cup Transp(m) \cup Gap(m, 1) \cup Dup(m)
 \* all tracks in order
 Plain(T, m) == { [t \in T |-> InOrder(m)] }
 \* at most one track deviates from 1..m
-OneDev(T, m) == { f \in [T -> Variants(m)] : Cardinality({t \in T : f[t] # InOrder(m)}) <= 1 }
+OneDev(T, m) == Plain(T, m) \cup { [t \in T |-> IF t = d THEN v ELSE InOrder(m)] : d \in T, v \in Variants(m) \ {InOrder(m)} }
 \* every track deviates independently
 AnyDev(T, m) == [T -> Variants(m)]
 
